@@ -110,6 +110,10 @@ class RuleResult:
         self.notes.append(text)
 
     def check_floor(self) -> None:
+        # the floor guards against a vacuous *pass*; a rule that already reports a
+        # violation is not passing
+        if self.findings:
+            return
         if len(self.instances) < self.floor:
             raise AnalysisError(
                 f"{self.rule}: only {len(self.instances)} instances found, "
